@@ -69,19 +69,19 @@ func verifC02Fetch(C int) {
 			want[i] = verifXor(cur == val, op == logql.OpNotEq)
 		}
 	default:
-		// the sanitised Docker label of container 0, with its own value
-		m = logql.LabelMatcher{Label: logql.Label(otelstorage.KeyToLabel(dkeys[0])), Op: logql.OpEq, Value: dvals[0]}
-		want[0] = true // a container carrying Docker label k=v is selected by {sanitised(k)="v"}
-		for i := 1; i < C; i++ {
-			// another container is selected iff its own sanitised key coincides and carries the same value
-			want[i] = vsymAnd(otelstorage.KeyToLabel(dkeys[i]) == otelstorage.KeyToLabel(dkeys[0]), dvals[i] == dvals[0])
-			if derivedHas(otelstorage.KeyToLabel(dkeys[0])) {
-				// the sanitised key shadows a built-in label: not judged here
-				vsymAssume(false)
-			}
-		}
-		if derivedHas(otelstorage.KeyToLabel(dkeys[0])) {
+		// the sanitised Docker label of one of the containers, with its own
+		// value (1 byte, so never the empty value of a missing label)
+		src := vsymChoice("labelOf", C)
+		key := otelstorage.KeyToLabel(dkeys[src])
+		if derivedHas(key) {
+			// the sanitised key shadows a built-in label: not judged here
 			vsymAssume(false)
+		}
+		m = logql.LabelMatcher{Label: logql.Label(key), Op: op, Value: dvals[src]}
+		for i := 0; i < C; i++ {
+			// a container carries the label iff its own sanitised key coincides
+			eq := vsymAnd(otelstorage.KeyToLabel(dkeys[i]) == key, dvals[i] == dvals[src])
+			want[i] = verifXor(eq, op == logql.OpNotEq)
 		}
 	}
 	q := &Querier{client: fc}
@@ -97,6 +97,21 @@ func verifC02Fetch(C int) {
 		}
 		if want[i] {
 			vsymAssert(n == 1, "a container whose labels satisfy the selector is read")
+			for _, c := range got {
+				if c.ID != "id"+strconv.Itoa(i) {
+					continue
+				}
+				// its label map is its own: the built-in labels and its Docker label
+				wantLen := 9
+				if !derivedHas(otelstorage.KeyToLabel(dkeys[i])) {
+					wantLen++
+				}
+				vsymAssert(len(c.labels.labels) == wantLen, "a selected container carries exactly its own labels")
+				v, ok := c.labels.labels[otelstorage.KeyToLabel(dkeys[i])]
+				vsymAssert(ok && (v == dvals[i] || derivedHas(otelstorage.KeyToLabel(dkeys[i]))), "a selected container carries its own Docker label")
+				v, ok = c.labels.labels["container_id"]
+				vsymAssert(ok && (v == c.ID || otelstorage.KeyToLabel(dkeys[i]) == "container_id"), "a selected container carries its own id")
+			}
 		} else {
 			vsymAssert(n == 0, "a container whose labels do not satisfy the selector is not read")
 		}
